@@ -4,6 +4,8 @@ import (
 	"bytes"
 	stdjson "encoding/json"
 	"fmt"
+	"math"
+	"math/big"
 	"math/rand"
 	"os"
 	"reflect"
@@ -561,7 +563,85 @@ func c02TreeOps(c *Ctx, doc string) {
 	c.Op("dec 0 "+hx([]byte(doc)), out, true, "tree")
 }
 
+// c02FloatLiterals: decimal literals at the places where binary rounding decides — just below, at and
+// just above the midpoints between neighbouring float32 and float64 values (written with enough
+// digits to fall on either side within the wider format), the largest finite values and the
+// overflow thresholds, the smallest normal and subnormal values, long digit strings
+func c02FloatLiterals() []string {
+	var out []string
+	add := func(f *big.Float) { out = append(out, f.Text('f', -1), f.Text('e', 60)) }
+	mid32 := func(a float32) {
+		b := math.Nextafter32(a, float32(math.Inf(1)))
+		m := new(big.Float).SetPrec(400).Add(new(big.Float).SetFloat64(float64(a)), new(big.Float).SetFloat64(float64(b)))
+		m.Quo(m, big.NewFloat(2))
+		for _, e := range []float64{-1e-30, -1e-18, 0, 1e-18, 1e-30} {
+			d := new(big.Float).SetPrec(400).Mul(m, new(big.Float).SetPrec(400).SetFloat64(e))
+			add(new(big.Float).SetPrec(400).Add(m, d))
+		}
+	}
+	mid64 := func(a float64) {
+		b := math.Nextafter(a, math.Inf(1))
+		m := new(big.Float).SetPrec(400).Add(new(big.Float).SetFloat64(a), new(big.Float).SetFloat64(b))
+		m.Quo(m, big.NewFloat(2))
+		for _, e := range []float64{-1e-30, 0, 1e-30} {
+			d := new(big.Float).SetPrec(400).Mul(m, new(big.Float).SetPrec(400).SetFloat64(e))
+			add(new(big.Float).SetPrec(400).Add(m, d))
+		}
+	}
+	for _, a := range []float32{1, 1.0000001, 1.0000002, 0.1, 3.1415927, 16777216, 16777218, 1e-10, 1e20, math.MaxFloat32 / 2, math.SmallestNonzeroFloat32, 1.1754942e-38, 1.17549435e-38} {
+		mid32(a)
+		mid32(-a)
+	}
+	for _, a := range []float64{1, 0.1, 2.2250738585072011e-308, 9007199254740992, 1e22, 1e23, math.MaxFloat64 / 2, 5e-324} {
+		mid64(a)
+	}
+	// MaxFloat32 + half an ulp is the first literal that overflows float32; likewise for float64
+	max32 := new(big.Float).SetPrec(400).SetFloat64(math.MaxFloat32)
+	half32 := new(big.Float).SetPrec(400).SetMantExp(big.NewFloat(1), 103)
+	thr32 := new(big.Float).SetPrec(400).Add(max32, half32)
+	for _, e := range []float64{-1e-30, 0, 1e-30} {
+		d := new(big.Float).SetPrec(400).Mul(thr32, new(big.Float).SetPrec(400).SetFloat64(e))
+		add(new(big.Float).SetPrec(400).Add(thr32, d))
+		add(new(big.Float).SetPrec(400).Neg(new(big.Float).SetPrec(400).Add(thr32, d)))
+	}
+	out = append(out, "3.4028235e38", "3.4028236e38", "3.40282346638528859811704183484516925440e38", "340282356779733661637539395458142568447", "340282356779733661637539395458142568448",
+		"1.7976931348623157e308", "1.7976931348623158e308", "1.797693134862315807e308", "1.797693134862315808e308", "1e39", "-1e39", "1e-46", "1e-400", "0.000000000000000000000000000000000000000000001401298464324817",
+		"4.9e-324", "2.4703282292062327e-324", "2.4703282292062328e-324", "123456789012345678901234567890", "0.1000000000000000055511151231257827021181583404541015625", "16777217", "16777217.0000000001", "9007199254740993", "9007199254740993.0000001")
+	return out
+}
+
 func runC02(c *Ctx) {
+	if !c.IsWorker() {
+		// floats where rounding decides, into every float destination and position
+		type f32s struct {
+			A float32
+			P *float32
+			S []float32
+			M map[string]float32
+		}
+		type f64s struct {
+			A float64
+			P *float64
+			S []float64
+			M map[string]float64
+		}
+		n := 0
+		for _, lit := range c02FloatLiterals() {
+			for _, neg := range []string{"", "-"} {
+				l := neg + strings.TrimPrefix(lit, "-")
+				n++
+				doc := fmt.Sprintf(`{"A":%s,"P":%s,"S":[%s,%s],"M":{"k":%s}}`, l, l, l, l, l)
+				for _, mode := range []string{"unmarshal", "decoder"} {
+					c02Compare(c, "float32-rounding", reflect.TypeOf(float32(0)), l, nil, mode)
+					c02Compare(c, "float64-rounding", reflect.TypeOf(float64(0)), l, nil, mode)
+					c02Compare(c, "float32-rounding", reflect.TypeOf(f32s{}), doc, nil, mode)
+					c02Compare(c, "float64-rounding", reflect.TypeOf(f64s{}), doc, nil, mode)
+					c02Compare(c, "float-rounding-iface", reflect.TypeOf((*interface{})(nil)).Elem(), "["+l+"]", nil, mode)
+				}
+			}
+		}
+		c.Rep.Exhaustive = append(c.Rep.Exhaustive, fmt.Sprintf("%d float literals at rounding / overflow / underflow boundaries of float32 and float64, in 5 destinations x 2 modes", n))
+	}
 	c.Rep.Rule = "destination types from the generator grammar plus Unmarshaler / TextUnmarshaler implementers; documents generated from the type (right kinds most of the time; integers and floats at and beyond every range boundary; strings with every escape class; case variants, unknown and duplicate keys; wrong kinds, nulls, surplus and missing array elements) with two noise levels; zero and pre-populated destinations; Unmarshal, Decoder, UseNumber, DisallowUnknownFields; oracle encoding/json: error parity and reflect.DeepEqual; non-trivial = every case"
 	ntypes := 1200
 	if c.Thorough() {
